@@ -149,66 +149,80 @@ def history_case(chk, rng, hi):
             if rng.random() < 0.85 and a == b:
                 b = rng.choice([c for c in codes if c != a])
             use_default = rng.random() < 0.3
-            if use_default:
-                d = stub_date
-                dexpr = []
-            else:
-                d = rng.choice(neighbours(rng.choice(used_periods))) \
-                    if used_periods and rng.random() < 0.8 else rand_date(rng)
-                dexpr = [["date", d.year, d.month, d.day]]
-            per = period_of(cur_kind, d) if cur_kind else None
+            drift = use_default and bool(used_periods) and \
+                rng.random() < 0.7
+            for rep in range(2 if drift else 1):
+                if rep == 1:
+                    # the default date moves on (no update in between):
+                    # the same dateless lookup must follow it
+                    stub_date = rng.choice(neighbours(
+                        rng.choice(used_periods)))
+                    steps.append({"setstub": ["d%d" % hi,
+                                              ["date", stub_date.year,
+                                               stub_date.month,
+                                               stub_date.day]]})
+                    tags.add("dateless lookup repeated after the default "
+                             "date moved")
+                if use_default:
+                    d = stub_date
+                    dexpr = []
+                else:
+                    d = rng.choice(neighbours(rng.choice(used_periods))) \
+                        if used_periods and rng.random() < 0.8 else rand_date(rng)
+                    dexpr = [["date", d.year, d.month, d.day]]
+                per = period_of(cur_kind, d) if cur_kind else None
 
-            def entry(c):
-                if cur_kind is None:
-                    return None
-                return table.get((per, c))
-            key = "g%d" % i
-            steps.append({"id": "r", "k": key,
-                          "e": M(V("mc"), "get_rate", U(a), U(b), *dexpr)})
-            amount = F(rng.randint(1, 10 ** 6))    # on every currency grid
-            steps.append({"k": key + ".call",
-                          "e": ["c", V("mc"), [Q(num(amount), a), U(b)] +
-                                dexpr]})
-            exp = None
-            if a == b:
-                form = "identity"
-                exact = F(1)
-                ok = True
-            elif a == base:
-                form = "direct"
-                e = entry(b)
-                ok = e is not None
-                if ok:
-                    exact = e[1] / e[0]
-                    exp = ["c", XR, [U(a), ["i", e[0]], U(b), num(e[1])]]
-            elif b == base:
-                form = "inverse"
-                e = entry(a)
-                ok = e is not None
-                if ok:
-                    exact = e[0] / e[1]
-                    exp = M(["c", XR, [U(base), ["i", e[0]], U(a),
-                                       num(e[1])]], "inverted")
-            else:
-                form = "cross"
-                ea, eb = entry(a), entry(b)
-                ok = ea is not None and eb is not None
-                if ok:
-                    exact = (eb[1] / eb[0]) / (ea[1] / ea[0])
-                    ra = ["c", XR, [U(base), ["i", ea[0]], U(a), num(ea[1])]]
-                    rb = ["c", XR, [U(base), ["i", eb[0]], U(b), num(eb[1])]]
-                    exp = ["c", XR, [U(a), ["i", 1], U(b),
-                                     OP("/", ["a", rb, "rate"],
-                                        ["a", ra, "rate"])]]
-            if exp is not None:
-                steps.append({"k": key + ".exp", "e": exp})
-            neighbour = ok is False and cur_kind not in (None, "none") and \
-                any(c2 in (a, b) for (p2, c2) in table)
-            checks.append((key, "lookup",
-                           dict(a=a, b=b, form=form, ok=ok,
-                                exact=exact if ok else None, amount=amount,
-                                default=use_default, date=d.isoformat(),
-                                neighbour=neighbour)))
+                def entry(c):
+                    if cur_kind is None:
+                        return None
+                    return table.get((per, c))
+                key = "%s%d" % ("gh"[rep], i)
+                steps.append({"id": "r", "k": key,
+                              "e": M(V("mc"), "get_rate", U(a), U(b), *dexpr)})
+                amount = F(rng.randint(1, 10 ** 6))    # on every currency grid
+                steps.append({"k": key + ".call",
+                              "e": ["c", V("mc"), [Q(num(amount), a), U(b)] +
+                                    dexpr]})
+                exp = None
+                if a == b:
+                    form = "identity"
+                    exact = F(1)
+                    ok = True
+                elif a == base:
+                    form = "direct"
+                    e = entry(b)
+                    ok = e is not None
+                    if ok:
+                        exact = e[1] / e[0]
+                        exp = ["c", XR, [U(a), ["i", e[0]], U(b), num(e[1])]]
+                elif b == base:
+                    form = "inverse"
+                    e = entry(a)
+                    ok = e is not None
+                    if ok:
+                        exact = e[0] / e[1]
+                        exp = M(["c", XR, [U(base), ["i", e[0]], U(a),
+                                           num(e[1])]], "inverted")
+                else:
+                    form = "cross"
+                    ea, eb = entry(a), entry(b)
+                    ok = ea is not None and eb is not None
+                    if ok:
+                        exact = (eb[1] / eb[0]) / (ea[1] / ea[0])
+                        ra = ["c", XR, [U(base), ["i", ea[0]], U(a), num(ea[1])]]
+                        rb = ["c", XR, [U(base), ["i", eb[0]], U(b), num(eb[1])]]
+                        exp = ["c", XR, [U(a), ["i", 1], U(b),
+                                         OP("/", ["a", rb, "rate"],
+                                            ["a", ra, "rate"])]]
+                if exp is not None:
+                    steps.append({"k": key + ".exp", "e": exp})
+                neighbour = ok is False and cur_kind not in (None, "none") and \
+                    any(c2 in (a, b) for (p2, c2) in table)
+                checks.append((key, "lookup",
+                               dict(a=a, b=b, form=form, ok=ok,
+                                    exact=exact if ok else None, amount=amount,
+                                    default=use_default, date=d.isoformat(),
+                                    neighbour=neighbour)))
     desc = dict(base=base, codes=codes, kind=kind, length=length)
 
     def judge(obs, rec, case):
@@ -314,7 +328,8 @@ def run(chk, R, tier, seed):
               "kind-mixing rejections", "currency given as ISO code",
               "spelling|None", "spelling|int", "spelling|year-str",
               "spelling|tuple", "spelling|month-str", "spelling|date",
-              "spelling|date-str"):
+              "spelling|date-str",
+              "dateless lookup repeated after the default date moved"):
         chk.require(c)
     prelude = [{"e": M(MONEY, "register_currency", ["s", c])} for c in CODES]
     n = 1200 if tier == "quick" else 40000
